@@ -28,8 +28,8 @@ pub struct Case {
     pub cancel_after: Option<usize>,
 }
 
-pub const MAKE: [&str; 6] = ["make:plain", "make:exclude-hit", "make:exclude-miss", "make:non-rk", "make:prf", "make:counter"];
-pub const GET: [&str; 5] = ["get:allow", "get:no-list", "get:prf", "get:counterless", "get:prf-no-secret"];
+pub const MAKE: [&str; 10] = ["make:plain", "make:exclude-hit", "make:exclude-miss", "make:non-rk", "make:prf", "make:counter", "make:prf-uv-only-unverified", "make:bad-alg", "make:pin-auth", "make:uv-unconfigured"];
+pub const GET: [&str; 8] = ["get:allow", "get:no-list", "get:prf", "get:counterless", "get:prf-no-secret", "get:prf-uv-only-unverified", "get:pin-auth", "get:two-listed"];
 pub const CODES: [u8; 6] = [0x00, 0x01, 0x28, 0x2E, 0x7F, 0xF0];
 
 fn seeds() -> Vec<Passkey> {
@@ -59,7 +59,15 @@ where
 {
     let mut uv = ScriptedUv::consenting(log);
     uv.yields = 1;
-    let cfg = AuthCfg { counter: request == "make:counter", id_len: None, hmac: 2, hmac_mc: true };
+    // requests named *-uv-only-unverified run on an authenticator whose PRF secrets are all
+    // verification-gated while the ceremony does not ask for verification: the extension step
+    // fails *late*, after consent (and, for assertions, after the counter was advanced)
+    let uv_only = request.ends_with("uv-only-unverified");
+    if request == "make:uv-unconfigured" {
+        uv.verification_cap = Some(false);
+    }
+    let cfg = AuthCfg { counter: request == "make:counter", id_len: None, hmac: if uv_only { 1 } else { 2 }, hmac_mc: true };
+    let ask_uv = !uv_only;
     let mut auth = mk_auth(store, uv, &cfg);
     let prf = || AuthenticatorPrfInputs { eval: Some(AuthenticatorPrfValues { first: [1; 32], second: None }), eval_by_credential: None };
     if request.starts_with("make") {
@@ -68,8 +76,11 @@ where
             "make:exclude-miss" => Some(vec![cred_id(3), vec![0xEE; 16]]),
             _ => None,
         };
-        let ext = (request == "make:prf").then(|| make_credential::ExtensionInputs { hmac_secret: Some(true), hmac_secret_mc: None, prf: Some(prf()) });
-        let req = mc_request(RP, &[7, 7], exclude, request != "make:non-rk", true, true, false, ext);
+        let ext = (request == "make:prf" || uv_only).then(|| make_credential::ExtensionInputs { hmac_secret: Some(true), hmac_secret_mc: None, prf: Some(prf()) });
+        let mut req = mc_request(RP, &[7, 7], exclude, request != "make:non-rk", true, ask_uv, request == "make:pin-auth", ext);
+        if request == "make:bad-alg" {
+            req.pub_key_cred_params = vec![param(coset::iana::Algorithm::RS256)];
+        }
         Res::Make(auth.make_credential(req).await.map(|r| r.auth_data.attested_credential_data.as_ref().map(|a| a.credential_id().to_vec()).unwrap_or_default()).map_err(sc_byte))
     } else {
         let (allow, ext) = match request.as_str() {
@@ -78,9 +89,12 @@ where
             "get:counterless" => (Some(vec![cred_id(2)]), None),
             // counter is advanced, then the PRF step fails because the credential has no secret
             "get:prf-no-secret" => (Some(vec![vec![0xEE; 16], cred_id(1)]), Some(get_assertion::ExtensionInputs { hmac_secret: None, prf: Some(prf()) })),
+            "get:prf-uv-only-unverified" => (Some(vec![cred_id(1)]), Some(get_assertion::ExtensionInputs { hmac_secret: None, prf: Some(prf()) })),
+            "get:pin-auth" => (Some(vec![cred_id(1)]), None),
+            "get:two-listed" => (Some(vec![cred_id(2), cred_id(1)]), None),
             _ => (None, None),
         };
-        let req = ga_request(RP, allow, false, true, true, false, ext);
+        let req = ga_request(RP, allow, false, true, ask_uv, request == "get:pin-auth", ext);
         Res::Get(auth.get_assertion(req).await.map(|r| (r.credential.map(|d| d.id.to_vec()).unwrap_or_default(), r.auth_data.counter.unwrap_or(0))).map_err(sc_byte))
     }
 }
@@ -88,6 +102,9 @@ where
 fn observe(c: &Case) -> Obs {
     let log = Log::new();
     let mut seeds = seeds();
+    if c.request == "get:prf-uv-only-unverified" {
+        seeds[0] = seeded(&Seed { n: 1, rp: RP.into(), handle: Some(vec![1]), counter: Some(10), hmac: Some(false) });
+    }
     if c.request == "get:prf-no-secret" {
         // credential 1 without PRF secrets
         seeds[0] = seeded(&Seed { n: 1, rp: RP.into(), handle: Some(vec![1]), counter: Some(10), hmac: None });
@@ -339,7 +356,7 @@ pub fn run(ctx: &Ctx) -> Result<Run, String> {
     }
     let mut run = Run::from_stats(
         "fault_enumeration",
-        "requests {make: plain, exclude-list hit, exclude-list miss, non-rk, PRF, counter; get: allow list, no list, PRF, counter-less, PRF on a credential without secret} x store stack {contract store, behind Arc<Mutex>, behind Arc<RwLock>} x fault plans over the faultable store calls (every single call x 6 status codes, every subset of >= 2 calls with KeyStoreFull; thorough: subsets x 6 codes and single faults x all 256 bytes) x cancellation after every k < polls-to-completion (every store call and the user step suspend once); plus cancellation-only runs on Arc<Mutex<MemoryStore>> and Arc<RwLock<Option<Passkey>>>. Oracle: store snapshot before/after against a model that applies only the calls that returned Ok, call log, result. Every (request, store, plan, cancellation point) is a distinct case",
+        "requests {make: plain, exclude-list hit, exclude-list miss, non-rk, PRF, counter, PRF evaluation that fails late (verification-gated secrets, unverified ceremony), unsupported algorithm, pin-auth, verification unconfigured; get: allow list, no list, PRF, counter-less, PRF on a credential without secret, PRF that fails late, pin-auth, two listed credentials} x store stack {contract store, behind Arc<Mutex>, behind Arc<RwLock>} x fault plans over the faultable store calls (every single call x 6 status codes, every subset of >= 2 calls with KeyStoreFull; thorough: subsets x 6 codes and single faults x all 256 bytes) x cancellation after every k < polls-to-completion (every store call and the user step suspend once); plus cancellation-only runs on Arc<Mutex<MemoryStore>> and Arc<RwLock<Option<Passkey>>>. Oracle: store snapshot before/after against a model that applies only the calls that returned Ok, call log, result. Every (request, store, plan, cancellation point) is a distinct case",
         true,
         stats,
     );
